@@ -122,7 +122,7 @@ def h(sym, ticks, tlit, nlit, Pfix=None):
 
 def obligations(tier):
     out = []
-    ticks = 4 if tier == "quick" else 6
+    ticks = 4 if tier == "quick" else 5
     for Pfix in (1, 2, 3, 4):
         out.append(Ob("clocks/indirect-goals/P%d" % Pfix, h, dict(ticks=ticks, tlit=None, nlit=None, Pfix=Pfix), budget=900 if tier == "quick" else 2400,
                       covers=["forced-reentry", "timeout-fired", "timeout-pending", "repeat-fired", "repeat-pending"],
